@@ -197,7 +197,8 @@ CONTRACTS = [
     Contract(M, 'SqlFilterCondition.make', prop=PROP, spec_globals=G, level='sup',
              params={'cls': T.cls('ak.mtd_sql:SqlFilterCondition'),
                      'src_obj': T.one_of(COND('=', SCALAR), T.tuple(T.str, T.const('in'), T.symcoll(list)),
-                                         T.tuple(T.str, SCALAR), T.tuple(T.str, T.none), T.list(T.str, T.const('>'), SCALAR),
+                                         T.tuple(T.str, SCALAR), T.tuple(T.str, T.str), T.tuple(T.str, T.none), T.list(T.str, T.const('>'), SCALAR),
+                                         T.tuple(T.str, T.const('like'), T.str),
                                          T.tuple(T.str,), T.tuple(T.str, T.str, T.str, T.str), T.int, T.none)},
              ensures={
                  'dispatch': "(isinstance(src_obj, SqlFilterCondition) and result is src_obj) or "
@@ -229,7 +230,7 @@ CONTRACTS.append(
                                       T.tuple(T.tuple(T.str, T.const('in'), T.symcoll(list)),
                                               OR(COND('IS NULL', T.none), COND('LIKE', T.str))),
                                       T.tuple(T.tuple(T.str, T.none), T.none, T.tuple(T.str, T.const('!='), T.symcoll(tuple)))),
-                     'kwargs': T.one_of(T.dict({}), T.dict({'name': SCALAR}),
+                     'kwargs': T.one_of(T.dict({}), T.dict({'name': SCALAR}), T.dict({'name': T.str}),
                                         T.dict({'_order_by': T.str, 'b': SCALAR, 'a': T.none}),
                                         T.dict({'_as_scalars': T.const(True), 'zz': T.symcoll(list)}))},
              ensures={
